@@ -51,6 +51,8 @@ FnAccept(id, o) ==
   CASE id = "x1"  -> <<"x", "1">> \in Pairs(o.labels)
     [] id = "x1b" -> <<"x", "1">> \in Pairs(o.labels)       \* a second, distinct Go func value with the same meaning
     [] id = "n1"  -> o.ns = "n1"
+    [] id = "cx1" -> <<"x", "1">> \in Pairs(o.labels)       \* two closures made by one function literal
+    [] id = "cx2" -> <<"x", "2">> \in Pairs(o.labels)
 
 (***************************************************************************)
 (* Kubernetes ownership: does workload w of kind K select a pod with       *)
